@@ -339,16 +339,18 @@ type Group struct {
 	Prov bool   `json:"prov"`
 	Conc int    `json:"conc"`
 	Raw  bool   `json:"raw"`
+	N5   bool   `json:"n5"` // thorough: additionally the 5-node shapes (ascending link order, missing-only states)
 }
 
 func (g *Group) String() string {
-	return fmt.Sprintf("%s skip=%v h=[%s] prov=%v conc=%d raw=%v", g.API, g.Skip, g.H, g.Prov, g.Conc, g.Raw)
+	return fmt.Sprintf("%s skip=%v h=[%s] prov=%v conc=%d raw=%v n5=%v", g.API, g.Skip, g.H, g.Prov, g.Conc, g.Raw, g.N5)
 }
 
 // Domains of the enumeration for a tier.
 type Domains struct {
 	WalkShapes  []*Shape
 	FetchShapes []*Shape
+	Shapes5     []*Shape
 	WalkLims    []int
 	FetchLims   []int
 	Broken      bool
@@ -368,9 +370,16 @@ func domains(thorough bool) *Domains {
 			d.WalkShapes = append(d.WalkShapes, enumShapes(n, true, true)...)
 		}
 		d.FetchShapes = d.WalkShapes
+		d.Shapes5 = enumShapes(5, false, false)
 	}
 	d.WalkLims = []int{-2, 0, 1, 2, 3}
-	d.FetchLims = []int{-1, 0, 1, 2, 3}
+	if thorough {
+		d.WalkLims = []int{-2, -1, 0, 1, 2, 3, 4}
+		d.FetchLims = []int{-1, 0, 1, 2, 3, 4}
+	}
+	if !thorough {
+		d.FetchLims = []int{-1, 0, 1, 2, 3}
+	}
 	d.Broken = true
 	return d
 }
@@ -392,8 +401,11 @@ func (d *Domains) forEach(g *Group, f func(i int, c *Case, sh *Shape) bool) {
 		shapes, lims, broken = d.FetchShapes, d.FetchLims, false
 	}
 	i := 0
+	if g.N5 {
+		shapes = append(append([]*Shape{}, shapes...), d.Shapes5...)
+	}
 	for _, sh := range shapes {
-		for _, st := range d.states(sh.N, broken) {
+		for _, st := range d.states(sh.N, broken && sh.N < 5) {
 			for _, lim := range lims {
 				if lim > sh.N-1 && lim > 0 {
 					continue // a limit beyond the longest possible path adds nothing over lim = N-1
@@ -407,6 +419,8 @@ func (d *Domains) forEach(g *Group, f func(i int, c *Case, sh *Shape) bool) {
 		}
 	}
 }
+
+func countKey(g *Group) string { return fmt.Sprint(g.API, g.N5) }
 
 func (d *Domains) count(g *Group) int {
 	n := 0
@@ -477,11 +491,15 @@ func groups(thorough bool) []*Group {
 	if thorough {
 		concs = []int{0, 1, 2, 3, -1}
 	}
+	canonical := map[string]bool{}
+	for _, h := range handlerLists(false) {
+		canonical[h] = true
+	}
 	for _, h := range handlerLists(thorough) {
 		for _, skip := range []bool{false, true} {
 			for _, prov := range []bool{false, true} {
 				for _, conc := range concs {
-					out = append(out, &Group{API: "walk", Skip: skip, H: h, Prov: prov, Conc: conc})
+					out = append(out, &Group{API: "walk", Skip: skip, H: h, Prov: prov, Conc: conc, N5: thorough && canonical[h] && conc != 1 && conc != 3})
 				}
 			}
 		}
